@@ -150,9 +150,9 @@ theorem column_length_of_valid {α} {p : List Src} {oc nc : List α}
     cases x with
     | old r =>
       simp only at hx
-      simp [List.filterMap_cons, pick, List.getElem?_eq_getElem hx, ih']
+      simp [pick, List.getElem?_eq_getElem hx, ih']
     | new j =>
       simp only at hx
-      simp [List.filterMap_cons, pick, List.getElem?_eq_getElem hx, ih']
+      simp [pick, List.getElem?_eq_getElem hx, ih']
 
 end Exetera.Journal
